@@ -456,3 +456,49 @@ def inlens_job(args):
                                 "lens": "singlet"},
                        "_in": {"lens": desc, "ray": int(r)}})
     return {"seed": seed, "events": events, "skipped": skipped, "traces": 4, "desc": desc}
+
+
+# --------------------------------------------------------------------- a monocentric lens, oblique field
+def monocentric_job(args):
+    """A meniscus whose two surfaces are concentric with the centre of the aperture stop (a plane
+    stop in air in front of it), uncoated, lossless glass; a field off both axes.  The chief ray
+    meets both surfaces at normal incidence - it is the one undeviated ray of a bundle whose other
+    rays are all refracted - and travels obliquely to every coordinate axis."""
+    seed, = args
+    from optiland.optic import Optic
+    from optiland.materials import IdealMaterial
+    from optiland.rays import create_polarization
+    rnd = random.Random(seed)
+    d1 = rnd.uniform(6.0, 15.0)
+    t = rnd.uniform(2.0, 6.0)
+    o = Optic()
+    o.add_surface(index=0, radius=np.inf, thickness=np.inf)
+    o.add_surface(index=1, radius=np.inf, thickness=d1, is_stop=True)
+    o.add_surface(index=2, radius=-d1, thickness=t, material=IdealMaterial(n=rnd.uniform(1.4, 1.9)))
+    o.add_surface(index=3, radius=-(d1 + t), thickness=rnd.uniform(20.0, 60.0))
+    o.add_surface(index=4)
+    o.set_aperture("EPD", rnd.uniform(1.0, 3.0))
+    o.set_field_type("angle")
+    o.add_field(y=0.0)
+    F = rnd.uniform(5.0, 20.0)
+    o.add_field(y=F)
+    o.add_wavelength(0.55, is_primary=True)
+    Hx, Hy = rnd.choice([(1.0, 0.0), (0.6, 0.6), (-0.8, 0.3), (0.0, 1.0)])
+    desc = "monocentric meniscus d=%s t=%s field %s deg H=(%s, %s)" % (float(d1).hex(), float(t).hex(), float(F).hex(), Hx, Hy)
+    cls = {"coating": "none", "tilted": False, "mirror": False, "entry": "trace", "lens": "monocentric"}
+    events, skipped, ntr = [], 0, 0
+    try:
+        for nm in rnd.sample(NAMED, 2) + ["random"]:
+            st = random_state(rnd) if nm == "random" else create_polarization(nm)
+            o.set_polarization(st)
+            rays = G.quiet(o.trace, Hx, Hy, 0.55, 2, "hexapolar")
+            ntr += 1
+            picks = [0] + rnd.sample(range(1, rays.x.size), 3)
+            ev, sk = trace_events(o, rays, st, picks, dict(cls, state=nm))
+            events += ev
+            skipped += sk
+    except Exception as ex:
+        return {"error": "trace: %s: %s" % (type(ex).__name__, ex), "seed": seed, "events": [], "desc": desc}
+    for e in events:
+        e["_in"]["lens"] = desc
+    return {"seed": seed, "events": events, "skipped": skipped, "traces": ntr, "desc": desc}
